@@ -76,7 +76,7 @@ def run(pid, tier, seed):
     bfs_fp = os.path.join(root, "fail-bfs.txt")
     procs.append((bfs_fp, subprocess.Popen([binary, "bfs", str(nkeys), bfs_fp], stdout=subprocess.PIPE, stderr=subprocess.PIPE)))
     tot = {"cases": 0, "ops": 0, "nontrivial": 0, "audits": 0, "replaced": 0, "absent_lookup": 0, "removes_hit": 0,
-           "lower_calls": 0, "clears": 0}
+           "lower_calls": 0, "clears": 0, "recycled": 0}
     per_cmp = {"int": 0, "charp": 0, "voidp": 0, "ptr": 0}
     samples = []
     bfs_states = 0
@@ -130,8 +130,8 @@ def run(pid, tier, seed):
     cov = {
         "evaluations": tot["cases"] + regress,
         "distinct_nontrivial": tot["nontrivial"],
-        "rule": "rapidcheck operation sequences (insert with replacement / remove with and without disposal / find / lower bound / clear / "
-                "iterate) over universes of 4-64 keys for set_compare_int (incl. INT_MIN/INT_MAX neighbours), _charp (case variants), _voidp, "
+        "rule": "rapidcheck operation sequences (insert with replacement / re-insert of a node taken out with no_dispose / remove with and "
+                "without disposal / find / lower bound / clear / iterate) over universes of 4-64 keys for set_compare_int (incl. INT_MIN/INT_MAX neighbours), _charp (case variants), _voidp, "
                 "_ptr, each op followed by a model comparison and a structural audit; plus exhaustive BFS over every tree shape reachable over 7 "
                 "storable keys with every op and every gap key. non-trivial (random part) = sequence with an insert after a successful "
                 "remove, size >= 3 reached and an absent-key lookup, distinct by sequence hash; (BFS part) = distinct reachable tree states",
@@ -141,7 +141,7 @@ def run(pid, tier, seed):
         "bfs_states": bfs_states,
         "operations_executed": tot["ops"], "audits": tot["audits"],
         "classes": {"replacing_inserts": tot["replaced"], "absent_lookups": tot["absent_lookup"], "successful_removes": tot["removes_hit"],
-                    "lower_bound_calls": tot["lower_calls"], "clears": tot["clears"], "per_comparator_sequences": per_cmp},
+                    "lower_bound_calls": tot["lower_calls"], "clears": tot["clears"], "recycled_node_inserts": tot["recycled"], "per_comparator_sequences": per_cmp},
         "regression_inputs_replayed": regress,
         "processes_crashed": crashed,
     }
